@@ -72,6 +72,8 @@ type scase struct {
 	ChunkSize int        `json:"chunk_size"`
 	Ops       []hop      `json:"ops"`
 	Crash     *crashSpec `json:"crash,omitempty"`
+	// Rounds: a corpus case whose failure was schedule-dependent is replayed this many times (thorough: three times as often)
+	Rounds int `json:"rounds,omitempty"`
 }
 
 // ---------------------------------------------------------------------------------------------
@@ -1253,11 +1255,11 @@ func (s *sim) startTmpForLayout(p *part, evs []ev) bool {
 		return false
 	}
 	if kept < len(evs) {
-		// MODEL (as a relation): records still in the chunk writer's buffer at a graceful stop are dropped or not, depending on
-		// whether the periodic flush ran; nothing in the shutdown sequence syncs the journals (Generated.C07.partitionShutdownSyncsJournals)
+		// MODEL: the shutdown sequence syncs the journals (Generated.C07.partitionShutdownSyncsJournals, finding F42 repaired):
+		// every acknowledged record is in the journal after a graceful stop (Props.C07.acked_events_survive_graceful_stop)
 		res.Dist(s.sect, "acked-lost-at-graceful-stop")
 		s.specFail("acked-event-lost", fmt.Sprintf("%d of %d events acknowledged right before a graceful stop are not in partition %s after the restart", len(evs)-kept, len(evs), p.tags),
-			fmt.Sprintf("%d kept", kept), evsStr(evs), "unflushed records are dropped at shutdown", true, "F42")
+			fmt.Sprintf("%d kept", kept), evsStr(evs), "all kept: the shutdown syncs the journals", false, "")
 	}
 	return true
 }
@@ -1858,7 +1860,16 @@ func corpusCases() []scase {
 			Input   scase  `json:"input"`
 		}
 		if vh.ReadJSON(f, &rp) == nil && len(rp.Input.Ops) > 0 {
-			cs = append(cs, rp.Input)
+			n := 1
+			if rp.Input.Rounds > 1 {
+				n = rp.Input.Rounds
+				if args.Thorough {
+					n *= 3
+				}
+			}
+			for i := 0; i < n; i++ {
+				cs = append(cs, rp.Input)
+			}
 		}
 	}
 	return cs
@@ -1873,7 +1884,11 @@ func replay(path string) {
 		res.Fatal(args.Out, "replay: %v", err)
 	}
 	sect := res.Section("replay", "replay", "replay of one recorded case")
-	runCases("replay", sect, []scase{rp.Input}, vh.NewRng(args.Seed).Fork("replay"), 1)
+	rounds := []scase{rp.Input}
+	for i := 1; i < rp.Input.Rounds; i++ {
+		rounds = append(rounds, rp.Input)
+	}
+	runCases("replay", sect, rounds, vh.NewRng(args.Seed).Fork("replay"), 1)
 	for _, m := range res.Mismatches {
 		fmt.Printf("MISMATCH %s impl=%s model=%s\n", m.Function, m.Impl, m.Model)
 	}
